@@ -1122,11 +1122,12 @@ int main (int argc, char **argv) {
 	int plen0 = 0;
 	if (sample_prefix) { int n; int *v = parse_choices (sample_prefix, &n); memcpy (choice, v, n * sizeof (int)); plen0 = n; }
 	prefix_len = plen0;
-	char *sample = NULL; char *sample_out = NULL; int det_checked = 0, det_ok = 1;
+	char *sample = NULL; char *sample_out = NULL; int sample_dev = 0; int det_checked = 0, det_ok = 1;
 	for (;;) {
 		int r = run_execution ();
 		if (r == 1) { record_violation (); if (nvrecs >= opt_maxviol) { capped |= 4; break; } }
-		if (r == 0 && want_sample && !sample) {
+		if (r == 0 && want_sample && (!sample || (!sample_dev && usedP + usedE > 0))) {
+			free (sample); free (sample_out); sample_dev = usedP + usedE > 0;
 			size_t cap = depth * 4 + 16; sample = malloc (cap); int n = 0;
 			for (int i = 0; i < depth; i++) n += snprintf (sample + n, cap - n, "%s%d", i ? " " : "", choice[i]);
 			sample_out = strdup (outcome);
